@@ -748,6 +748,9 @@ def _same_types(a, b):
     # these names, and rules are globals of the generated module.)
     if a.__class__ is not b.__class__:
         return False
+    if isinstance(a, ParsedObject):
+        # Equal objects are not interchangeable: they have positions.
+        return a is b
     if isinstance(a, (list, tuple)):
         if len(a) != len(b):
             return False
